@@ -1,0 +1,158 @@
+// Copyright 2026 SCION Association
+//
+// Licensed under the Apache License, Version 2.0 (the "License");
+// you may not use this file except in compliance with the License.
+// You may obtain a copy of the License at
+//
+//   http://www.apache.org/licenses/LICENSE-2.0
+//
+// Unless required by applicable law or agreed to in writing, software
+// distributed under the License is distributed on an "AS IS" BASIS,
+// WITHOUT WARRANTIES OR CONDITIONS OF ANY KIND, either express or implied.
+// See the License for the specific language governing permissions and
+// limitations under the License.
+
+//go:build verif
+
+package router
+
+// Thin exports for the external verification harness (/verif). No behaviour of its own: every
+// function only constructs, calls or reads the unexported data-plane code.
+
+import (
+	"context"
+	"net"
+	"unsafe"
+
+	"github.com/gopacket/gopacket/layers"
+
+	"github.com/scionproto/scion/pkg/addr"
+	"github.com/scionproto/scion/private/topology"
+	"github.com/scionproto/scion/router/control"
+)
+
+// VerifDP wraps a real dataPlane plus one fast-path and one slow-path processor.
+type VerifDP struct {
+	*dataPlane
+	proc *scionPacketProcessor
+	slow *slowPathPacketProcessor
+}
+
+const (
+	VerifDiscard  = int(pDiscard)
+	VerifForward  = int(pForward)
+	VerifSlowPath = int(pSlowPath)
+	VerifDone     = int(pDone)
+
+	VerifSPRouterAlertIngress = int(slowPathRouterAlertIngress)
+	VerifSPRouterAlertEgress  = int(slowPathRouterAlertEgress)
+
+	VerifBufSize     = bufSize
+	VerifMinHeadroom = minHeadroom
+)
+
+func VerifNewDP(rc RunConfig, authSCMP bool) *VerifDP {
+	return &VerifDP{dataPlane: newDataPlane(rc, authSCMP)}
+}
+
+// VerifWrapDP wraps the data plane of a Connector (real start-up path).
+func VerifWrapDP(c *Connector) *VerifDP { return &VerifDP{dataPlane: &c.DataPlane} }
+
+func (v *VerifDP) VerifSetConnOpener(underlay string, opener any) {
+	v.underlays[underlay].SetConnOpener(opener)
+}
+
+// VerifStart marks the data plane running and creates the processors (what Run does, minus goroutines).
+func (v *VerifDP) VerifStart() {
+	v.setRunning()
+	v.proc = newPacketProcessor(v.dataPlane)
+	v.slow = newSlowPathProcessor(v.dataPlane)
+}
+
+func (v *VerifDP) VerifLink(ifID uint16) Link                  { return v.interfaces[ifID] }
+func (v *VerifDP) VerifSetLink(ifID uint16, l Link)            { v.interfaces[ifID] = l }
+func (v *VerifDP) VerifLinkType(ifID uint16) topology.LinkType { return v.linkTypes[ifID] }
+func (v *VerifDP) VerifLocalIA() addr.IA                       { return v.localIA }
+func (v *VerifDP) VerifPortRange() (uint16, uint16) {
+	return v.dispatchedPortStart, v.dispatchedPortEnd
+}
+func (v *VerifDP) VerifUnderlay(name string) UnderlayProvider { return v.underlays[name] }
+
+// VerifRun runs the real dataPlane.Run.
+func (v *VerifDP) VerifRun(ctx context.Context) error { return v.Run(ctx) }
+
+// VerifInitPool runs the real pool/queue initialisation of Run.
+func (v *VerifDP) VerifInitPool(processorQueueSize int) { v.initPacketPool(processorQueueSize) }
+func (v *VerifDP) VerifPool() PacketPool                { return v.packetPool }
+func (v *VerifDP) VerifPoolLen() int                    { return len(v.packetPool.pool) }
+func (v *VerifDP) VerifPoolCap() int                    { return cap(v.packetPool.pool) }
+func (v *VerifDP) VerifRunProcessor(id int, q <-chan *Packet, slowQ chan<- *Packet) {
+	v.runProcessor(id, q, slowQ)
+}
+func (v *VerifDP) VerifRunSlowPathProcessor(id int, q <-chan *Packet) {
+	v.runSlowPathProcessor(id, q)
+}
+func (v *VerifDP) VerifInitQueues(n int) ([]chan *Packet, []chan *Packet) { return v.initQueues(n) }
+
+// VerifNewPacket returns a fresh packet (own buffer) holding raw, received on link from src.
+func VerifNewPacket(raw []byte, link Link, src *net.UDPAddr) *Packet {
+	p := (&Packet{}).init(&[bufSize]byte{})
+	p.reset(minHeadroom)
+	p.RawPacket = p.RawPacket[:len(raw)]
+	copy(p.RawPacket, raw)
+	p.Link = link
+	if src != nil {
+		p.RemoteAddr = unsafe.Pointer(src)
+	}
+	return p
+}
+
+// VerifOut is what the processing stages left in the packet.
+type VerifOut struct {
+	Disp        int
+	Egress      uint16
+	TrafficType int
+	SPType      int
+	SPCode      int
+	SPPointer   uint16
+	Remote      *net.UDPAddr // only meaningful where the underlay sets it (internal link)
+	Link        Link
+	Raw         []byte // aliases the packet buffer
+}
+
+func verifOut(disp disposition, p *Packet) VerifOut {
+	return VerifOut{
+		Disp: int(disp), Egress: p.egress, TrafficType: int(p.trafficType),
+		SPType: int(p.slowPathRequest.spType), SPCode: int(p.slowPathRequest.code),
+		SPPointer: p.slowPathRequest.pointer, Remote: (*net.UDPAddr)(p.RemoteAddr),
+		Link: p.Link, Raw: p.RawPacket,
+	}
+}
+
+// VerifProcess runs the real fast path on pkt.
+func (v *VerifDP) VerifProcess(pkt *Packet) VerifOut {
+	return verifOut(v.proc.processPkt(pkt), pkt)
+}
+
+// VerifSlowPath runs the real slow path on a packet for which VerifProcess returned VerifSlowPath.
+func (v *VerifDP) VerifSlowPath(pkt *Packet) (VerifOut, error) {
+	err := v.slow.processPacket(pkt)
+	return verifOut(pSlowPath, pkt), err
+}
+
+func VerifPacketEgress(p *Packet) uint16       { return p.egress }
+func VerifPacketRemote(p *Packet) *net.UDPAddr { return (*net.UDPAddr)(p.RemoteAddr) }
+func VerifPacketBuffer(p *Packet) *[bufSize]byte {
+	return p.buffer
+}
+
+// VerifBFDSender builds the real bfdSend used by sessions on ifID.
+type VerifBFDSender struct{ b *bfdSend }
+
+func (v *VerifDP) VerifNewBFDSend(
+	link control.LinkInfo, localHost, remoteHost addr.Host, ifID uint16, isIntraAS bool,
+) (*VerifBFDSender, error) {
+	b, err := newBFDSend(v.dataPlane, link, localHost, remoteHost, ifID, isIntraAS, v.macFactory())
+	return &VerifBFDSender{b}, err
+}
+func (s *VerifBFDSender) Send(m *layers.BFD) error { return s.b.Send(m) }
